@@ -1,1 +1,609 @@
-(* stub: to be written *)
+(* Opset (C11): "the requested opset is honoured".
+   - schema_at: the operator AS OF an opset = the version with the greatest since_version <= opset
+     (gen/GenSchemas.v = dump of the installed onnx.defs, regenerated on every run; data, not axioms);
+   - opset_ok: a boolean validator over the exported model (Onnx.omodel, produced from the real
+     ModelProto by tools/onnx2coq.py) with its soundness theorem against the declarative node_conforms;
+   - finite proofs about the opset-sensitive helpers translated from /repo (gen/GenOpsetUtils.v):
+     the reduction axes form and the Swish guard agree with the dumped schemas at EVERY opset. *)
+From Coq Require Import ZArith String List Bool Lia.
+From J2O Require Import Onnx.
+From J2OGen Require Import GenSchemas GenOpsetUtils.
+Import ListNotations.
+Local Open Scope string_scope.
+Local Open Scope Z_scope.
+
+(* ------------------------------------------------------------------ tables *)
+Definition lookup {A} (tbl : list (string * A)) (k : string) : option A :=
+  match find (fun kv => String.eqb (fst kv) k) tbl with Some kv => Some (snd kv) | None => None end.
+
+Lemma lookup_In {A} (tbl : list (string * A)) k v : lookup tbl k = Some v -> In (k, v) tbl.
+Proof.
+  unfold lookup. destruct (find _ tbl) as [[k' v']|] eqn:E; [|discriminate].
+  intro H; inversion H; subst. apply find_some in E. destruct E as [Hin Hk].
+  simpl in Hk. apply String.eqb_eq in Hk. now subst.
+Qed.
+
+Lemma lookup_None {A} (tbl : list (string * A)) k : lookup tbl k = None -> forall v, ~ In (k, v) tbl.
+Proof.
+  unfold lookup. destruct (find _ tbl) as [kv|] eqn:E; [discriminate|]. intros _ v Hin.
+  pose proof (find_none _ _ E _ Hin) as H. simpl in H. now rewrite String.eqb_refl in H.
+Qed.
+
+Lemma opset_of_In imports d v : opset_of imports d = Some v -> In (d, v) imports.
+Proof.
+  unfold opset_of. destruct (find _ imports) as [[k' v']|] eqn:E; [|discriminate].
+  intro H; inversion H; subst. apply find_some in E. destruct E as [Hin Hk].
+  simpl in Hk. apply String.eqb_eq in Hk. now subst.
+Qed.
+
+(* ------------------------------------------------------------------ the operator as of an opset *)
+Definition applicable (vs : list schema_ver) (opset : Z) : list schema_ver :=
+  filter (fun v => sv_since v <=? opset) vs.
+
+Fixpoint max_ver (vs : list schema_ver) : option schema_ver :=
+  match vs with
+  | [] => None
+  | v :: r => match max_ver r with
+              | None => Some v
+              | Some w => if sv_since w <? sv_since v then Some v else Some w
+              end
+  end.
+
+Definition version_at (vs : list schema_ver) (opset : Z) : option schema_ver := max_ver (applicable vs opset).
+
+(* declarative: sv is a version of the operator introduced no later than `opset`, and no other
+   version introduced at or before `opset` is newer *)
+Definition is_version_at (vs : list schema_ver) (opset : Z) (sv : schema_ver) : Prop :=
+  In sv vs /\ sv_since sv <= opset /\
+  forall sv', In sv' vs -> sv_since sv' <= opset -> sv_since sv' <= sv_since sv.
+
+Lemma max_ver_spec vs sv : max_ver vs = Some sv ->
+  In sv vs /\ forall sv', In sv' vs -> sv_since sv' <= sv_since sv.
+Proof.
+  revert sv. induction vs as [|v r IH]; simpl; [discriminate|]. intros sv H.
+  destruct (max_ver r) as [w|] eqn:E.
+  - destruct (IH w eq_refl) as [Hw Hmax].
+    destruct (sv_since w <? sv_since v) eqn:C; inversion H; subst.
+    + apply Z.ltb_lt in C. split; [now left|]. intros sv' [->|Hin]; [lia|]. specialize (Hmax _ Hin). lia.
+    + apply Z.ltb_ge in C. split; [now right|]. intros sv' [->|Hin]; [lia|]. now apply Hmax.
+  - inversion H; subst. split; [now left|]. intros sv' [->|Hin]; [lia|].
+    destruct r; [contradiction|]. simpl in E. destruct (max_ver r); [destruct (_ <? _)|]; discriminate.
+Qed.
+
+Lemma max_ver_None vs : max_ver vs = None -> vs = [].
+Proof. destruct vs; simpl; [reflexivity|]. destruct (max_ver vs); [destruct (_ <? _)|]; discriminate. Qed.
+
+Lemma version_at_spec vs opset sv : version_at vs opset = Some sv -> is_version_at vs opset sv.
+Proof.
+  unfold version_at, applicable. intro H. apply max_ver_spec in H. destruct H as [Hin Hmax].
+  apply filter_In in Hin. destruct Hin as [Hin Hle]. apply Z.leb_le in Hle.
+  repeat split; auto. intros sv' Hin' Hle'. apply Hmax. apply filter_In. split; auto. now apply Z.leb_le.
+Qed.
+
+Lemma version_at_None vs opset : version_at vs opset = None -> forall sv, In sv vs -> opset < sv_since sv.
+Proof.
+  unfold version_at, applicable. intros H sv Hin. apply max_ver_None in H.
+  destruct (Z.ltb_spec opset (sv_since sv)) as [|Hle]; [assumption|].
+  assert (Hf : In sv (filter (fun v => sv_since v <=? opset) vs)) by (apply filter_In; split; [assumption|now apply Z.leb_le]).
+  rewrite H in Hf. contradiction.
+Qed.
+
+(* version_at is complete as well: the declarative version is unique up to since_version *)
+Lemma version_at_complete vs opset sv : is_version_at vs opset sv ->
+  exists sv', version_at vs opset = Some sv' /\ sv_since sv' = sv_since sv.
+Proof.
+  intros (Hin & Hle & Hmax). destruct (version_at vs opset) as [sv'|] eqn:E.
+  - exists sv'. split; [reflexivity|]. apply version_at_spec in E. destruct E as (Hin' & Hle' & Hmax').
+    specialize (Hmax _ Hin' Hle'). specialize (Hmax' _ Hin Hle). lia.
+  - pose proof (version_at_None _ _ E _ Hin). lia.
+Qed.
+
+Definition schema_at_in (tbl : list (string * list schema_ver)) (op : string) (opset : Z) : option schema_ver :=
+  match lookup tbl op with Some vs => version_at vs opset | None => None end.
+
+(* the standard-domain operator `op` as of `opset` *)
+Definition schema_at (op : string) (opset : Z) : option schema_ver := schema_at_in schemas op opset.
+
+(* the dumped tables have one row per operator and strictly increasing versions: "In (op, vs) tbl" determines vs *)
+Fixpoint str_nodup (l : list string) : bool :=
+  match l with [] => true | x :: r => negb (str_mem x r) && str_nodup r end.
+Fixpoint strictly_increasing (l : list Z) : bool :=
+  match l with a :: ((b :: _) as r) => (a <? b) && strictly_increasing r | _ => true end.
+Definition table_wf (tbl : list (string * list schema_ver)) : bool :=
+  str_nodup (map fst tbl) &&
+  forallb (fun kv => strictly_increasing (map sv_since (snd kv)) && negb (Nat.eqb (length (snd kv)) 0) &&
+                     forallb (fun v => (1 <=? sv_since v) && (0 <=? sv_min_in v) && (sv_min_in v <=? sv_max_in v) &&
+                                       (0 <=? sv_min_out v) && (sv_min_out v <=? sv_max_out v)) (snd kv)) tbl.
+Lemma schemas_wf : table_wf schemas = true. Proof. vm_compute. reflexivity. Qed.
+Lemma ml_schemas_wf : table_wf ml_schemas = true. Proof. vm_compute. reflexivity. Qed.
+
+Lemma str_mem_In s l : str_mem s l = true <-> In s l.
+Proof.
+  unfold str_mem. rewrite existsb_exists. split.
+  - intros (x & Hin & Hx). apply String.eqb_eq in Hx. now subst.
+  - intro H. exists s. split; [assumption|apply String.eqb_refl].
+Qed.
+
+Lemma str_nodup_NoDup l : str_nodup l = true -> NoDup l.
+Proof.
+  induction l as [|x r IH]; simpl; intro H; [constructor|].
+  apply andb_true_iff in H. destruct H as [Hx Hr]. constructor; [|now apply IH].
+  intro Hin. apply str_mem_In in Hin. now rewrite Hin in Hx.
+Qed.
+
+Lemma nodup_fst_functional {A} (tbl : list (string * A)) k v1 v2 :
+  NoDup (map fst tbl) -> In (k, v1) tbl -> In (k, v2) tbl -> v1 = v2.
+Proof.
+  induction tbl as [|[k' v'] r IH]; simpl; intros Hnd H1 H2; [contradiction|].
+  inversion Hnd as [|? ? Hnot Hnd']; subst.
+  destruct H1 as [H1|H1], H2 as [H2|H2].
+  - inversion H1; inversion H2; congruence.
+  - inversion H1; subst. exfalso. apply Hnot. now apply (in_map fst) in H2.
+  - inversion H2; subst. exfalso. apply Hnot. now apply (in_map fst) in H1.
+  - now apply IH.
+Qed.
+
+Lemma schemas_functional op vs1 vs2 : In (op, vs1) schemas -> In (op, vs2) schemas -> vs1 = vs2.
+Proof.
+  apply nodup_fst_functional. apply str_nodup_NoDup.
+  pose proof schemas_wf as H. unfold table_wf in H. now apply andb_true_iff in H.
+Qed.
+
+(* ------------------------------------------------------------------ conformance of one node *)
+Definition domain_table (dom : string) : option (list (string * list schema_ver)) :=
+  if String.eqb dom "" || String.eqb dom "ai.onnx" then Some schemas
+  else if String.eqb dom "ai.onnx.ml" then Some ml_schemas
+  else None.
+
+Definition is_call (n : onode) (f : ofunction) : bool :=
+  String.eqb (of_domain f) (on_domain n) && String.eqb (of_name f) (on_op n).
+Definition find_function (funs : list ofunction) (n : onode) : option ofunction := find (is_call n) funs.
+
+Definition n_ins (n : onode) : Z := Z.of_nat (length (on_ins n)).
+Definition n_outs (n : onode) : Z := Z.of_nat (length (on_outs n)).
+Definition attr_names (n : onode) : list string := map fst (on_attrs n).
+
+(* declarative: arity within the signature, every attribute of the node is an attribute of the signature *)
+Definition sig_conforms (n : onode) (min_in max_in min_out max_out : Z) (attrs : list string) : Prop :=
+  min_in <= n_ins n <= max_in /\ min_out <= n_outs n <= max_out /\
+  forall a, In a (attr_names n) -> In a attrs.
+
+Definition sig_problem (n : onode) (min_in max_in min_out max_out : Z) (attrs : list string) : option string :=
+  if negb ((min_in <=? n_ins n) && (n_ins n <=? max_in)) then Some "input-arity"
+  else if negb ((min_out <=? n_outs n) && (n_outs n <=? max_out)) then Some "output-arity"
+  else match find (fun a => negb (str_mem a attrs)) (attr_names n) with
+       | Some a => Some ("attribute:" ++ a)
+       | None => None
+       end.
+
+Lemma sig_problem_sound n a b c d attrs : sig_problem n a b c d attrs = None -> sig_conforms n a b c d attrs.
+Proof.
+  unfold sig_problem, sig_conforms.
+  destruct ((a <=? n_ins n) && (n_ins n <=? b)) eqn:E1; simpl; [|discriminate].
+  destruct ((c <=? n_outs n) && (n_outs n <=? d)) eqn:E2; simpl; [|discriminate].
+  destruct (find _ (attr_names n)) eqn:E3; [discriminate|]. intros _.
+  apply andb_true_iff in E1. destruct E1 as [E1a E1b]. apply andb_true_iff in E2. destruct E2 as [E2a E2b].
+  apply Z.leb_le in E1a, E1b, E2a, E2b. repeat split; try assumption.
+  intros x Hx. pose proof (find_none _ _ E3 _ Hx) as H. simpl in H.
+  apply negb_false_iff in H. now apply str_mem_In.
+Qed.
+
+Definition calls_function (funs : list ofunction) (n : onode) (f : ofunction) : Prop :=
+  In f funs /\ of_domain f = on_domain n /\ of_name f = on_op n.
+
+Definition fun_sig_conforms (n : onode) (f : ofunction) : Prop :=
+  sig_conforms n 0 (Z.of_nat (length (of_inputs f))) 0 (Z.of_nat (length (of_outputs f))) (of_attr_names f).
+
+(* THE declarative statement for a node, given the functions of the model and the opset imports in
+   force (model imports for graph nodes, the function's own imports for function bodies):
+   - the node's domain is imported, say at version `declared`;
+   - a node calling a model-local function fits that function's signature;
+   - otherwise, if the domain is one whose schemas ONNX defines ("", "ai.onnx", "ai.onnx.ml"): the operator has a
+     version sv introduced at or before `declared`, sv is the NEWEST such version (nothing newer than the
+     declared opset is used, nothing older than what the opset selects), sv is not deprecated, the number of inputs and
+     outputs is in sv's range and every attribute of the node is an attribute of sv. *)
+Definition node_conforms_in (funs : list ofunction) (imports : list (string * Z)) (n : onode) : Prop :=
+  exists declared, In (on_domain n, declared) imports /\ opset_of imports (on_domain n) = Some declared /\
+   ((exists f, calls_function funs n f /\ fun_sig_conforms n f)
+    \/
+    ((forall f, ~ calls_function funs n f) /\
+     forall tbl, domain_table (on_domain n) = Some tbl ->
+       exists vs sv, In (on_op n, vs) tbl /\ is_version_at vs declared sv /\ sv_deprecated sv = false /\
+                     sig_conforms n (sv_min_in sv) (sv_max_in sv) (sv_min_out sv) (sv_max_out sv) (sv_attrs sv))).
+
+Definition schema_problem (tbl : list (string * list schema_ver)) (n : onode) (declared : Z) : option string :=
+  match lookup tbl (on_op n) with
+  | None => Some "unknown-op"
+  | Some vs =>
+    match version_at vs declared with
+    | None => Some "missing-op"                 (* every version of the operator is newer than the declared opset *)
+    | Some sv => if sv_deprecated sv then Some "deprecated-op"
+                 else sig_problem n (sv_min_in sv) (sv_max_in sv) (sv_min_out sv) (sv_max_out sv) (sv_attrs sv)
+    end
+  end.
+
+Definition node_problem (funs : list ofunction) (imports : list (string * Z)) (n : onode) : option string :=
+  match opset_of imports (on_domain n) with
+  | None => Some "domain-not-imported"
+  | Some declared =>
+    match find_function funs n with
+    | Some f => match sig_problem n 0 (Z.of_nat (length (of_inputs f))) 0 (Z.of_nat (length (of_outputs f))) (of_attr_names f) with
+                | Some p => Some ("function-call-" ++ p) | None => None end
+    | None => match domain_table (on_domain n) with
+              | Some tbl => schema_problem tbl n declared
+              | None => None
+              end
+    end
+  end.
+
+Lemma node_problem_sound funs imports n : node_problem funs imports n = None -> node_conforms_in funs imports n.
+Proof.
+  unfold node_problem, node_conforms_in.
+  destruct (opset_of imports (on_domain n)) as [declared|] eqn:Ei; [|discriminate].
+  intro H. exists declared. split; [now apply opset_of_In|]. split; [reflexivity|].
+  unfold find_function in H. destruct (find (is_call n) funs) as [f|] eqn:Ef.
+  - left. exists f. apply find_some in Ef. destruct Ef as [Hin Hc]. unfold is_call in Hc.
+    apply andb_true_iff in Hc. destruct Hc as [Hd Ho]. apply String.eqb_eq in Hd, Ho.
+    split; [now repeat split|]. unfold fun_sig_conforms. apply sig_problem_sound.
+    destruct (sig_problem n 0 _ 0 _ (of_attr_names f)); [discriminate|reflexivity].
+  - right. split.
+    + intros f (Hin & Hd & Ho). pose proof (find_none _ _ Ef _ Hin) as Hc. unfold is_call in Hc.
+      rewrite Hd, Ho, !String.eqb_refl in Hc. discriminate.
+    + intros tbl Ht. rewrite Ht in H. unfold schema_problem in H.
+      destruct (lookup tbl (on_op n)) as [vs|] eqn:El; [|discriminate].
+      destruct (version_at vs declared) as [sv|] eqn:Ev; [|discriminate].
+      destruct (sv_deprecated sv) eqn:Ed; [discriminate|].
+      exists vs, sv. split; [now apply lookup_In|]. split; [now apply version_at_spec|]. split; [assumption|].
+      now apply sig_problem_sound.
+Qed.
+
+(* the validator is also complete w.r.t. the declarative statement for the standard tables (rows unique) *)
+Lemma sig_problem_complete n a b c d attrs : sig_conforms n a b c d attrs -> sig_problem n a b c d attrs = None.
+Proof.
+  intros ([H1 H2] & [H3 H4] & Hat). unfold sig_problem.
+  apply Z.leb_le in H1, H2, H3, H4. rewrite H1, H2, H3, H4. simpl.
+  destruct (find _ (attr_names n)) as [x|] eqn:E; [|reflexivity].
+  apply find_some in E. destruct E as [Hin Hx]. apply Hat in Hin. apply str_mem_In in Hin.
+  now rewrite Hin in Hx.
+Qed.
+
+(* ------------------------------------------------------------------ the whole model *)
+Definition subgraph_refs_problem (m : omodel) (n : onode) : list string :=
+  if forallb (fun i => Nat.ltb i (length (om_graphs m))) (node_subgraph_ids n) then [] else ["dangling-subgraph-id"].
+
+Definition node_problems (m : omodel) (imports : list (string * Z)) (n : onode) : list (string * string) :=
+  ((match node_problem (om_functions m) imports n with Some p => [(on_op n, p)] | None => [] end)
+   ++ map (fun p => (on_op n, p)) (subgraph_refs_problem m n))%list.
+
+(* a function's imports must not contradict the model's: same version for a domain both import *)
+Definition import_problems (m : omodel) (f : ofunction) : list (string * string) :=
+  flat_map (fun dv => match opset_of (om_opsets m) (fst dv) with
+                      | Some v => if v =? snd dv then [] else [(of_name f, "function-imports-other-version:" ++ fst dv)]
+                      | None => [(of_name f, "function-imports-domain-the-model-does-not:" ++ fst dv)]
+                      end) (of_opsets f).
+
+Definition all_problems (m : omodel) : list (string * string) :=
+  (flat_map (fun g => flat_map (node_problems m (om_opsets m)) (og_nodes g)) (om_graphs m)
+   ++ flat_map (fun f => flat_map (node_problems m (of_opsets f)) (of_nodes f) ++ import_problems m f) (om_functions m))%list.
+
+Definition opset_ok (m : omodel) : bool := match all_problems m with [] => true | _ => false end.
+Definition opset_first_bad (m : omodel) : option (string * string) := hd_error (all_problems m).
+
+(* declared version of the standard domain *)
+Definition declared_opset (m : omodel) : option Z := opset_of (om_opsets m) "".
+
+Definition node_conforms (m : omodel) (n : onode) : Prop := node_conforms_in (om_functions m) (om_opsets m) n.
+Definition fnode_conforms (m : omodel) (f : ofunction) (n : onode) : Prop := node_conforms_in (om_functions m) (of_opsets f) n.
+
+Lemma flat_map_nil {A B} (f : A -> list B) l : flat_map f l = [] -> forall x, In x l -> f x = [].
+Proof.
+  induction l as [|a r IH]; simpl; intros H x Hin; [contradiction|].
+  apply app_eq_nil in H. destruct H as [Ha Hr]. destruct Hin as [->|Hin]; [assumption|now apply IH].
+Qed.
+
+Lemma opset_ok_all m : opset_ok m = true -> all_problems m = [].
+Proof. unfold opset_ok. destruct (all_problems m); [reflexivity|discriminate]. Qed.
+
+Lemma node_problems_nil m imports n : node_problems m imports n = [] ->
+  node_problem (om_functions m) imports n = None /\
+  forall i, In i (node_subgraph_ids n) -> exists g, graph_by_id m i = Some g.
+Proof.
+  unfold node_problems. intro H. apply app_eq_nil in H. destruct H as [H1 H2]. split.
+  - destruct (node_problem _ imports n); [discriminate|reflexivity].
+  - unfold subgraph_refs_problem in H2.
+    destruct (forallb _ (node_subgraph_ids n)) eqn:E; [|discriminate].
+    intros i Hi. rewrite forallb_forall in E. specialize (E _ Hi). apply Nat.ltb_lt in E.
+    unfold graph_by_id. destruct (nth_error (om_graphs m) i) eqn:En; [eauto|].
+    apply nth_error_None in En. lia.
+Qed.
+
+(* SOUNDNESS, graphs (the table contains the main graph and every nested body) *)
+Theorem opset_ok_sound m : opset_ok m = true ->
+  forall g n, In g (om_graphs m) -> In n (og_nodes g) -> node_conforms m n.
+Proof.
+  intros H g n Hg Hn. apply opset_ok_all in H. unfold all_problems in H.
+  apply app_eq_nil in H. destruct H as [H _].
+  pose proof (flat_map_nil _ _ H _ Hg) as H1. pose proof (flat_map_nil _ _ H1 _ Hn) as H2.
+  apply node_problems_nil in H2. apply node_problem_sound. tauto.
+Qed.
+
+(* SOUNDNESS, function bodies: checked against the function's OWN opset imports *)
+Theorem opset_ok_sound_functions m : opset_ok m = true ->
+  forall f n, In f (om_functions m) -> In n (of_nodes f) -> fnode_conforms m f n.
+Proof.
+  intros H f n Hf Hn. apply opset_ok_all in H. unfold all_problems in H.
+  apply app_eq_nil in H. destruct H as [_ H].
+  pose proof (flat_map_nil _ _ H _ Hf) as H1. apply app_eq_nil in H1. destruct H1 as [H1 _].
+  pose proof (flat_map_nil _ _ H1 _ Hn) as H2.
+  apply node_problems_nil in H2. apply node_problem_sound. tauto.
+Qed.
+
+(* ... and a function never declares another version of a domain than the model does *)
+Theorem opset_ok_function_imports m : opset_ok m = true ->
+  forall f d v, In f (om_functions m) -> In (d, v) (of_opsets f) -> opset_of (om_opsets m) d = Some v.
+Proof.
+  intros H f d v Hf Hd. apply opset_ok_all in H. unfold all_problems in H.
+  apply app_eq_nil in H. destruct H as [_ H].
+  pose proof (flat_map_nil _ _ H _ Hf) as H1. apply app_eq_nil in H1. destruct H1 as [_ H1].
+  unfold import_problems in H1. pose proof (flat_map_nil _ _ H1 _ Hd) as H2. simpl in H2.
+  destruct (opset_of (om_opsets m) d) as [v'|]; [|discriminate].
+  destruct (v' =? v) eqn:E; [|discriminate]. apply Z.eqb_eq in E. now subst.
+Qed.
+
+(* nested bodies: every body reachable from the main graph through graph attributes is in the table,
+   hence covered by opset_ok_sound *)
+Inductive reachable (m : omodel) : nat -> Prop :=
+ | reach_main : reachable m 0%nat
+ | reach_body i g n j : reachable m i -> graph_by_id m i = Some g -> In n (og_nodes g) ->
+                        In j (node_subgraph_ids n) -> reachable m j.
+
+Theorem opset_ok_nested m : opset_ok m = true -> om_graphs m <> [] ->
+  forall i, reachable m i -> exists g, graph_by_id m i = Some g /\ forall n, In n (og_nodes g) -> node_conforms m n.
+Proof.
+  intros H Hne i Hr.
+  assert (Hex : exists g, graph_by_id m i = Some g).
+  { induction Hr as [|i g n j Hr IH Hg Hn Hj].
+    - unfold graph_by_id. destruct (om_graphs m) as [|g0 r]; [contradiction|]. now exists g0.
+    - pose proof (opset_ok_all _ H) as Ha. unfold all_problems in Ha.
+      apply app_eq_nil in Ha. destruct Ha as [Ha _].
+      assert (Hin : In g (om_graphs m)) by (unfold graph_by_id in Hg; now apply nth_error_In in Hg).
+      pose proof (flat_map_nil _ _ Ha _ Hin) as H1. pose proof (flat_map_nil _ _ H1 _ Hn) as H2.
+      apply node_problems_nil in H2. destruct H2 as [_ H2]. now apply H2. }
+  destruct Hex as [g Hg]. exists g. split; [assumption|]. intros n Hn.
+  apply (opset_ok_sound m H g n); [|assumption]. unfold graph_by_id in Hg. now apply nth_error_In in Hg.
+Qed.
+
+(* what soundness gives for a standard-domain, non-function node, spelled out with the concrete table *)
+Corollary opset_ok_standard_node m : opset_ok m = true ->
+  forall g n, In g (om_graphs m) -> In n (og_nodes g) -> on_domain n = "" ->
+  (forall f, ~ calls_function (om_functions m) n f) ->
+  exists declared vs sv, declared_opset m = Some declared /\ In (on_op n, vs) schemas /\
+    In sv vs /\ sv_since sv <= declared /\
+    (forall sv', In sv' vs -> sv_since sv' <= declared -> sv_since sv' <= sv_since sv) /\
+    sv_deprecated sv = false /\
+    sv_min_in sv <= n_ins n <= sv_max_in sv /\ sv_min_out sv <= n_outs n <= sv_max_out sv /\
+    (forall a, In a (attr_names n) -> In a (sv_attrs sv)).
+Proof.
+  intros H g n Hg Hn Hd Hnf. destruct (opset_ok_sound m H g n Hg Hn) as (declared & _ & Hdecl & [(f & Hc & _)|[_ Hs]]).
+  - exfalso. exact (Hnf f Hc).
+  - rewrite Hd in Hs, Hdecl. destruct (Hs schemas eq_refl) as (vs & sv & Hin & (Hv1 & Hv2 & Hv3) & Hdep & (Ha & Hb & Hc)).
+    exists declared, vs, sv. unfold declared_opset. repeat split; try assumption; lia.
+Qed.
+
+(* ------------------------------------------------------------------ finite proofs about the translated helpers *)
+Fixpoint zrange_nat (lo : Z) (n : nat) : list Z := match n with O => [] | S k => lo :: zrange_nat (lo + 1) k end.
+(* [lo; lo+1; ...; hi] *)
+Definition zrange (lo hi : Z) : list Z := zrange_nat lo (Z.to_nat (hi - lo + 1)).
+
+Lemma zrange_nat_In lo n x : lo <= x < lo + Z.of_nat n -> In x (zrange_nat lo n).
+Proof.
+  revert lo. induction n as [|k IH]; intros lo H; [simpl in H; lia|].
+  simpl. destruct (Z.eq_dec lo x) as [->|Hne]; [now left|]. right. apply IH. lia.
+Qed.
+
+Lemma zrange_In lo hi x : lo <= x <= hi -> In x (zrange lo hi).
+Proof. intro H. unfold zrange. apply zrange_nat_In. rewrite Z2Nat.id by lia. lia. Qed.
+
+(* --- reductions: builder_reduce_with_axes *)
+Definition form_fits (sv : schema_ver) (form : Z * list string) : bool :=
+  (sv_min_in sv <=? fst form) && (fst form <=? sv_max_in sv) && forallb (fun a => str_mem a (sv_attrs sv)) (snd form).
+
+(* the node the translated branch emits for reduction `op` at `opset` when static axes are given *)
+Definition reduce_form (since opset : Z) : Z * list string :=
+  if reduce_uses_axes_attribute opset since then reduce_form_attribute else reduce_form_input.
+
+(* the schema takes the axes as an INPUT (second input, no `axes` attribute) *)
+Definition schema_axes_is_input (sv : schema_ver) : bool := (sv_max_in sv =? 2) && negb (str_mem "axes" (sv_attrs sv)).
+(* the schema takes the axes as an ATTRIBUTE (single input) *)
+Definition schema_axes_is_attribute (sv : schema_ver) : bool := (sv_max_in sv =? 1) && str_mem "axes" (sv_attrs sv).
+
+Definition reduce_entry_ok (opset : Z) (e : string * Z) : bool :=
+  match schema_at (fst e) opset with
+  | None => false
+  | Some sv =>
+      negb (sv_deprecated sv) &&
+      (* the chosen branch is exactly the representation the schema has *)
+      Bool.eqb (negb (reduce_uses_axes_attribute opset (snd e))) (schema_axes_is_input sv) &&
+      Bool.eqb (reduce_uses_axes_attribute opset (snd e)) (schema_axes_is_attribute sv) &&
+      (* and the emitted node (arity + attribute names) is admitted, as is the axes-less form *)
+      form_fits sv (reduce_form (snd e) opset) && form_fits sv reduce_form_no_axes
+  end.
+
+Definition reduce_table_ok : bool :=
+  forallb (fun opset => forallb (reduce_entry_ok opset) REDUCTION_AXES_INPUT_SINCE) (zrange 13 onnx_newest_opset).
+
+Lemma reduce_table_ok_true : reduce_table_ok = true.
+Proof. vm_compute. reflexivity. Qed.
+
+Theorem reduce_form_correct : forall opset op since,
+  13 <= opset <= onnx_newest_opset -> In (op, since) REDUCTION_AXES_INPUT_SINCE ->
+  exists sv, schema_at op opset = Some sv /\ sv_deprecated sv = false /\
+    (* "opset >= since" (the branch that passes the axes as an input) iff the schema has the axes input *)
+    (since <= opset <-> sv_max_in sv = 2 /\ ~ In "axes" (sv_attrs sv)) /\
+    (opset < since <-> sv_max_in sv = 1 /\ In "axes" (sv_attrs sv)) /\
+    (* the node the branch emits fits the schema: arity and attribute names *)
+    (let form := reduce_form since opset in
+     sv_min_in sv <= fst form <= sv_max_in sv /\ forall a, In a (snd form) -> In a (sv_attrs sv)) /\
+    (sv_min_in sv <= fst reduce_form_no_axes <= sv_max_in sv /\ forall a, In a (snd reduce_form_no_axes) -> In a (sv_attrs sv)).
+Proof.
+  intros opset op since Hr Hin. pose proof reduce_table_ok_true as T. unfold reduce_table_ok in T.
+  rewrite forallb_forall in T. specialize (T opset (zrange_In _ _ _ Hr)).
+  rewrite forallb_forall in T. specialize (T _ Hin). unfold reduce_entry_ok in T. simpl fst in T; simpl snd in T.
+  destruct (schema_at op opset) as [sv|]; [|discriminate]. exists sv. split; [reflexivity|].
+  repeat (apply andb_true_iff in T; destruct T as [T ?]).
+  apply negb_true_iff in T.
+  assert (Hbr : reduce_uses_axes_attribute opset since = true <-> opset < since).
+  { unfold reduce_uses_axes_attribute.
+    (* the comparison the generator translated; any of the four decides against lia *)
+    first [ rewrite Z.ltb_lt; lia | rewrite Z.leb_le; lia | rewrite Z.gtb_lt; lia | rewrite Z.geb_le; lia ]. }
+  assert (Hfits : forall form, form_fits sv form = true ->
+            sv_min_in sv <= fst form <= sv_max_in sv /\ forall a, In a (snd form) -> In a (sv_attrs sv)).
+  { intros form Hf. unfold form_fits in Hf. repeat (apply andb_true_iff in Hf; destruct Hf as [Hf ?]).
+    apply Z.leb_le in Hf. split; [split; [assumption|now apply Z.leb_le]|].
+    intros a Ha. rewrite forallb_forall in H3. apply str_mem_In. now apply H3. }
+  split; [assumption|]. split; [|split; [|split; [now apply Hfits|now apply Hfits]]].
+  - apply Bool.eqb_prop in H2. unfold schema_axes_is_input in H2.
+    split.
+    + intro Hle. destruct (reduce_uses_axes_attribute opset since) eqn:E; [pose proof (proj1 Hbr eq_refl); lia|].
+      simpl in H2. symmetry in H2. apply andb_true_iff in H2. destruct H2 as [Ha Hb].
+      apply Z.eqb_eq in Ha. apply negb_true_iff in Hb. split; [assumption|].
+      intro Hc. apply str_mem_In in Hc. congruence.
+    + intros [Ha Hb]. destruct (reduce_uses_axes_attribute opset since) eqn:E.
+      * simpl in H2. symmetry in H2. apply andb_false_iff in H2. destruct H2 as [H2|H2].
+        -- apply Z.eqb_neq in H2. contradiction.
+        -- apply negb_false_iff in H2. apply str_mem_In in H2. contradiction.
+      * destruct (Z.lt_ge_cases opset since) as [Hlt|Hge]; [|assumption]. apply Hbr in Hlt. discriminate.
+  - apply Bool.eqb_prop in H1. unfold schema_axes_is_attribute in H1.
+    split.
+    + intro Hlt. apply Hbr in Hlt. rewrite Hlt in H1. symmetry in H1.
+      apply andb_true_iff in H1. destruct H1 as [Ha Hb]. apply Z.eqb_eq in Ha. now apply str_mem_In in Hb.
+    + intros [Ha Hb]. apply Hbr. rewrite H1. apply andb_true_iff. split; [now apply Z.eqb_eq|now apply str_mem_In].
+Qed.
+
+(* --- Swish: the rewrite x * Sigmoid(x) -> Swish(x) is guarded by the declared opset *)
+Definition swish_table_ok : bool :=
+  forallb (fun v => Bool.eqb (swish_rewrite_enabled v) (match schema_at "Swish" v with Some _ => true | None => false end))
+          (zrange 1 onnx_newest_opset).
+Lemma swish_table_ok_true : swish_table_ok = true.
+Proof. vm_compute. reflexivity. Qed.
+
+Lemma swish_enabled_iff v : swish_rewrite_enabled v = true <-> swish_guard_constant <= v.
+Proof.
+  unfold swish_rewrite_enabled, swish_rewrite_skipped. rewrite negb_true_iff.
+  first [ rewrite Z.ltb_ge; lia | rewrite Z.leb_gt; lia ].
+Qed.
+
+(* soundness direction: whenever the rewrite may fire, Swish exists at the declared opset *)
+Theorem swish_guard_sound : forall v, 1 <= v <= onnx_newest_opset ->
+  swish_rewrite_enabled v = true -> exists sv, schema_at "Swish" v = Some sv /\ sv_deprecated sv = false /\
+    sv_min_in sv <= 1 <= sv_max_in sv.
+Proof.
+  intros v Hr He.
+  assert (T : forallb (fun v => implb (swish_rewrite_enabled v)
+               (match schema_at "Swish" v with
+                | Some sv => negb (sv_deprecated sv) && (sv_min_in sv <=? 1) && (1 <=? sv_max_in sv)
+                | None => false end)) (zrange 1 onnx_newest_opset) = true) by (vm_compute; reflexivity).
+  rewrite forallb_forall in T. specialize (T v (zrange_In _ _ _ Hr)). rewrite He in T. simpl in T.
+  destruct (schema_at "Swish" v) as [sv|]; [|discriminate]. exists sv. split; [reflexivity|].
+  repeat (apply andb_true_iff in T; destruct T as [T ?]). apply negb_true_iff in T.
+  split; [assumption|]. split; now apply Z.leb_le.
+Qed.
+
+(* exactness: Swish exists at opset v iff the guard lets the rewrite run, i.e. iff threshold <= v *)
+Theorem swish_guard_correct : forall v, 1 <= v <= onnx_newest_opset ->
+  (schema_at "Swish" v <> None <-> swish_guard_constant <= v).
+Proof.
+  intros v Hr. pose proof swish_table_ok_true as T. unfold swish_table_ok in T.
+  rewrite forallb_forall in T. specialize (T v (zrange_In _ _ _ Hr)). apply Bool.eqb_prop in T.
+  rewrite <- swish_enabled_iff. rewrite T. destruct (schema_at "Swish" v); split; intro H; congruence.
+Qed.
+
+(* ------------------------------------------------------------------ the two operators of the known defect *)
+Definition first_opset_of (op : string) : option Z :=
+  match lookup schemas op with Some (v :: _) => Some (sv_since v) | _ => None end.
+
+(* an operator is absent from every opset below its first version: a model declaring such an opset
+   and using the operator is rejected by the validator *)
+Lemma absent_before_first op vs v0 r opset :
+  lookup schemas op = Some vs -> vs = v0 :: r -> opset < sv_since v0 -> schema_at op opset = None.
+Proof.
+  intros Hl Hvs Hlt. unfold schema_at, schema_at_in. rewrite Hl. subst vs.
+  destruct (version_at (v0 :: r) opset) as [sv|] eqn:E; [|reflexivity].
+  apply version_at_spec in E. destruct E as (Hin & Hle & _).
+  (* versions are strictly increasing, so v0 is the oldest *)
+  pose proof schemas_wf as W. unfold table_wf in W. apply andb_true_iff in W. destruct W as [_ W].
+  rewrite forallb_forall in W. specialize (W _ (lookup_In _ _ _ Hl)). simpl in W.
+  repeat (apply andb_true_iff in W; destruct W as [W ?]).
+  assert (Hmin : forall l a, strictly_increasing (a :: l) = true -> forall x, In x (a :: l) -> a <= x).
+  { induction l as [|b l IH]; intros a Hs x [->|Hx]; try lia; try contradiction.
+    simpl in Hs. apply andb_true_iff in Hs. destruct Hs as [Hab Hs]. apply Z.ltb_lt in Hab.
+    specialize (IH b Hs x Hx). lia. }
+  specialize (Hmin _ _ W (sv_since sv) (in_map sv_since _ _ Hin)). lia.
+Qed.
+
+(* ------------------------------------------------------------------ non-vacuity *)
+Definition mk_node (op : string) (ins outs : list string) (attrs : list (string * attr)) : onode :=
+  mkON op "" op ins outs attrs.
+Definition mk_model (opset : Z) (nodes : list onode) : omodel :=
+  mkOM 10 [("", opset)] [mkOG 0 None [] [] nodes [] []] [].
+
+Example ex_relu_ok : opset_ok (mk_model 21 [mk_node "Relu" ["x"] ["y"] []]) = true. Proof. reflexivity. Qed.
+Example ex_cumprod_23_bad :
+  opset_first_bad (mk_model 23 [mk_node "CumProd" ["x"; "axis"] ["y"] []]) = Some ("CumProd", "missing-op").
+Proof. vm_compute. reflexivity. Qed.
+Example ex_bitcast_23_bad :
+  opset_first_bad (mk_model 23 [mk_node "BitCast" ["x"] ["y"] [("to", AInt 6)]]) = Some ("BitCast", "missing-op").
+Proof. vm_compute. reflexivity. Qed.
+Example ex_reducemax_axes_input_17_bad :
+  opset_first_bad (mk_model 17 [mk_node "ReduceMax" ["x"; "axes"] ["y"] [("keepdims", AInt 1)]]) = Some ("ReduceMax", "input-arity").
+Proof. vm_compute. reflexivity. Qed.
+Example ex_reducemax_axes_attr_21_bad :
+  opset_first_bad (mk_model 21 [mk_node "ReduceMax" ["x"] ["y"] [("axes", AInts [0]); ("keepdims", AInt 1)]])
+  = Some ("ReduceMax", "attribute:axes").
+Proof. vm_compute. reflexivity. Qed.
+Example ex_reducemax_axes_input_21_ok :
+  opset_ok (mk_model 21 [mk_node "ReduceMax" ["x"; "axes"] ["y"] [("keepdims", AInt 1)]]) = true.
+Proof. vm_compute. reflexivity. Qed.
+Example ex_swish_23_bad : opset_ok (mk_model 23 [mk_node "Swish" ["x"] ["y"] []]) = false. Proof. vm_compute. reflexivity. Qed.
+Example ex_swish_24_ok : opset_ok (mk_model 24 [mk_node "Swish" ["x"] ["y"] []]) = true. Proof. vm_compute. reflexivity. Qed.
+Example ex_nested_body_checked :
+  opset_first_bad (mkOM 10 [("", 23)]
+     [mkOG 0 None [] [] [mkON "If" "" "if" ["c"] ["y"] [("then_branch", AGraph 1); ("else_branch", AGraph 1)]] [] [];
+      mkOG 1 (Some 0%nat) [] [] [mk_node "CumProd" ["x"; "a"] ["y"] []] [] []] [])
+  = Some ("CumProd", "missing-op").
+Proof. vm_compute. reflexivity. Qed.
+Example ex_function_body_checked :
+  opset_first_bad (mkOM 10 [("", 23); ("custom", 1)]
+     [mkOG 0 None [] [] [mkON "F" "custom" "call" ["x"] ["y"] []] [] []]
+     [mkOF "F" "custom" ["x"] ["y"] [mk_node "BitCast" ["x"] ["y"] [("to", AInt 6)]] [("", 23)] []])
+  = Some ("BitCast", "missing-op").
+Proof. vm_compute. reflexivity. Qed.
+Example ex_undeclared_domain :
+  opset_first_bad (mkOM 10 [("", 23)] [mkOG 0 None [] [] [mkON "F" "custom" "call" ["x"] ["y"] []] [] []] [])
+  = Some ("F", "domain-not-imported").
+Proof. vm_compute. reflexivity. Qed.
+Example ex_deprecated : opset_first_bad (mk_model 21 [mk_node "Scatter" ["d"; "i"; "u"] ["y"] []]) = Some ("Scatter", "deprecated-op").
+Proof. vm_compute. reflexivity. Qed.
+
+(* the two operators of the known defect: introduced in opset 26, absent from the default opset 23 *)
+Example cumprod_first_opset : first_opset_of "CumProd" = Some 26. Proof. vm_compute. reflexivity. Qed.
+Example bitcast_first_opset : first_opset_of "BitCast" = Some 26. Proof. vm_compute. reflexivity. Qed.
+Example cumprod_absent_21_25 : forallb (fun v => match schema_at "CumProd" v with None => true | _ => false end) (zrange 1 25) = true.
+Proof. vm_compute. reflexivity. Qed.
+Example bitcast_absent_21_25 : forallb (fun v => match schema_at "BitCast" v with None => true | _ => false end) (zrange 1 25) = true.
+Proof. vm_compute. reflexivity. Qed.
+Lemma cumprod_bitcast_absent_before_26 :
+  forall v, 1 <= v <= 25 -> schema_at "CumProd" v = None /\ schema_at "BitCast" v = None.
+Proof.
+  intros v Hv.
+  pose proof cumprod_absent_21_25 as A. pose proof bitcast_absent_21_25 as B.
+  rewrite forallb_forall in A, B.
+  specialize (A v (zrange_In 1 25 v Hv)). specialize (B v (zrange_In 1 25 v Hv)).
+  destruct (schema_at "CumProd" v); [discriminate|]. destruct (schema_at "BitCast" v); [discriminate|]. split; reflexivity.
+Qed.
+(* hypotheses of the finite theorems are satisfiable and both branches occur *)
+Example ex_reduce_both_branches :
+  reduce_form 18 17 = reduce_form_attribute /\ reduce_form 18 18 = reduce_form_input /\
+  In ("ReduceMax", 18) REDUCTION_AXES_INPUT_SINCE /\ In ("ReduceSum", 13) REDUCTION_AXES_INPUT_SINCE.
+Proof. vm_compute. repeat split; auto 20. Qed.
+Example ex_swish_both_sides : swish_rewrite_enabled 23 = false /\ swish_rewrite_enabled 24 = true. Proof. split; reflexivity. Qed.
